@@ -27,6 +27,9 @@ func galHdr(h hdr, t *ids) string {
 	if h.Kind == kLink {
 		link = galPath(h.Link)
 	}
+	if h.Kind == kSym {
+		link = gal.StrList(strings.Split(h.Link, "/")) // verbatim: the model resolves it
+	}
 	return fmt.Sprintf("H %s %s %d %d %d %d %s", galPath(h.Path), kindNames[h.Kind], h.Mode&0o7777, h.UID, h.GID, sum, link)
 }
 
@@ -49,6 +52,10 @@ func galTree(ns []tnode) string {
 			k = "TDir"
 		case kSym:
 			k = "TSym"
+		}
+		if n.Kind == kSym {
+			it[i] = fmt.Sprintf("TL %s %d %d %s %s %s", galPath(n.Path), n.Sum, n.Mode, gal.Z(int64(n.UID)), gal.Z(int64(n.GID)), gal.StrList(strings.Split(n.Link, "/")))
+			continue
 		}
 		it[i] = fmt.Sprintf("T %s %s %d %d %s %s", galPath(n.Path), k, n.Sum, n.Mode, gal.Z(int64(n.UID)), gal.Z(int64(n.GID)))
 	}
